@@ -70,3 +70,18 @@ Definition site_ok (s : site) : bool :=
 (* the only syntactic nondeterminism sources tolerated: map types keyed by
    pointers that are declared but (by [site_ok]) never ranged over *)
 Definition nondet_ok (n : nondet) : bool := (n_kind n =? "pointer_keyed_map")%string.
+
+(* ---------- serialisation calls ----------
+   A Marshal call in the generator is accepted when it is a proto.MarshalOptions
+   literal with Deterministic: true, or when it is one of these, by name:
+   - protogen.run, proto.Marshal(resp): CodeGeneratorResponse and everything below it
+     has no map field;
+   - Options.New, proto.Marshal(f.Proto): the bytes are unmarshalled again at once (with
+     the extension resolver) and never leave the function;
+   - GeneratedFile.metaFile, prototext.Marshal(info): GeneratedCodeInfo has no map field. *)
+Definition allowed_marshal (m : marshal_site) : bool :=
+  (m_file m =? "compiler/protogen/protogen.go")%string &&
+  (((m_func m =? "run")%string && (m_callee m =? "proto.Marshal")%string) ||
+   ((m_func m =? "Options.New")%string && (m_callee m =? "proto.Marshal")%string) ||
+   ((m_func m =? "GeneratedFile.metaFile")%string && (m_callee m =? "prototext.Marshal")%string)).
+Definition marshal_ok (m : marshal_site) : bool := m_deterministic m || allowed_marshal m.
